@@ -230,3 +230,20 @@ MORE = {
     'C19': 'R19.3 additionally: the disk section is layered inside the MRO loop and not inside a loop over files; no directory of the search path can be skipped inside the reversed walk. R19.6 call signatures, R19.7 name binding; R19.8 no swallowed ValueError on the configuration path; R19.9 a section class re-declares an inherited option only with a non-None default.',
     'C20': 'R20.7 the store request is parsed before the output is opened; R20.8 start-up streams are rewound before each read; R20.9 handler methods store nothing in settings/params shared between requests (one named exemption); R20.10 a non-JSON file counts as an empty notebook only behind a pure emptiness test. R20.3 also scans tornado lifecycle hooks (on_finish ...); R20.11 call signatures, R20.12 name binding.',
 }
+
+# Session 4 (rules for defects hunted on the unchanged tree; nbsa/rules/extra.py)
+MORE4 = {
+    'C01': 'R01.12 the mime-value differ evaluated over every (mimetype class, JSON kind, JSON kind, equal?) the schema admits: only two strs/lists/dicts reach the recursive differ, no difference is dropped.',
+    'C02': 'R02.12 the same finite-domain evaluation of the mime-value differ; R02.1 accepts a comparison that only routes between two differs.',
+    'C03': 'R03.21 tool failure statuses fall through to the built-in renderer; R03.22 field-agreement asserts on similar inserted cells are backed by the predicates or a guard; R03.23 {entry.key: entry} maps only over combined diffs; R03.24 no truthiness guard on a never-empty per-side collection; R03.8 now armed for the git renderer.',
+    'C04': 'R04.8 placeholders for missing/empty inputs take the format minor version of the real inputs before the merge.',
+    'C05': 'R05.7 no truthiness guard on a never-empty per-side collection.',
+    'C07': 'R07.10 temp files for the merge tools are written with a non-raising error handler; R07.11 tool failure statuses are never returned as a merge result; R07.12 diff3 only gets newline-terminated texts; R07.13 as R03.22; R07.14 key-only re-sorts are not applied to the concatenated diffs of several decisions (KNOWN FINDING).',
+    'C08': 'R08.10 as R04.8 (else nbformat.write repairs missing ids with random ones: the file is not the library result).',
+    'C09': 'R09.14 {entry.key: entry} maps only over combined diffs; R09.15 key-only re-sorts are not applied to the concatenated diffs of several decisions (KNOWN FINDING: insert above an agreed line patch).',
+    'C13': 'R13.1 no longer accepts pop/restore pairs (key order); R13.4 renderers never store into the config they are given.',
+    'C14': 'R14.10 as R01.12; R14.11 the cell renderer fallback excludes every gated field; R14.12 renderer gates agree with should_ignore_path; R14.13 one-sided keys of optional ignored fields (attachments) are hidden too.',
+    'C16': 'R16.1 requires an explicit --no-color; R16.13 as R14.11; R16.14 only diffs of base are rendered against base; R16.15 values out of diffs are read by key; R16.16 temp files for external tools tolerate lone surrogates.',
+}
+for _k, _v in MORE4.items():
+    MORE[_k] = (MORE[_k] + ' ' if _k in MORE else '') + _v
